@@ -44,4 +44,28 @@ __attribute__((noinline)) void h_i2_metals(void) {
   __verif_check(iv.get_ionic_fraction(ION_Ne_n) + iv.get_ionic_fraction(ION_Ne_p1) <= 1.);
   __verif_check(iv.get_ionic_fraction(ION_S_p1) + iv.get_ionic_fraction(ION_S_p2) + iv.get_ionic_fraction(ION_S_p3) <= 1.);
 }
+// I3: the dispatcher's special cases - no radiation (cell stays/gets neutral) and no gas (vacuum): every fraction is exactly 0 or 1,
+// stage sums <= 1, heating estimators normalised, and neither the rates nor the solvers are touched (REAL calculate_ionization_state)
+union UCalc { IonizationStateCalculator c; UCalc() {} ~UCalc() {} }; UCalc g_calc;
+__attribute__((noinline)) void h_i3_special(void) {
+  IonizationStateCalculator &c = g_calc.c;                       // object storage without constructor: the special cases must not read it
+  IonizationVariables iv;
+  const double jfac = nondet_double(), hfac = nondet_double(), n = nondet_double(), T = nondet_double(), miH = nondet_double(), hH = nondet_double();
+  __CPROVER_assume((jfac > 0.) & (hfac > 0.) & (n >= 0.) & (T >= 100.) & (miH >= 0.) & (hH >= 0.));
+  __CPROVER_assume((miH == 0.) | (n == 0.));                     // no hydrogen-ionizing radiation, or no gas
+  iv.set_number_density(n); iv.set_temperature(T); iv._mean_intensity[ION_H_n] = miH;
+  for (int i = 0; i < NUMBER_OF_IONNAMES; ++i) { if (i != ION_H_n) { iv._mean_intensity[i] = nondet_double(); __CPROVER_assume(iv._mean_intensity[i] >= 0.); } iv._ionic_fractions[i] = nondet_double(); }
+  iv._heating[HEATINGTERM_H] = hH;
+  c.calculate_ionization_state(jfac, hfac, iv);
+  const double expect = (n > 0.) ? 1. : 0.;
+  __verif_check(iv.get_ionic_fraction(ION_H_n) == expect);
+  __verif_check(iv.get_ionic_fraction(ION_He_n) == expect);
+  for (int i = 0; i < NUMBER_OF_IONNAMES; ++i) { const double f = iv.get_ionic_fraction(i); __verif_check((f == 0.) | (f == 1.)); }
+  __verif_check(iv.get_ionic_fraction(ION_C_p1) + iv.get_ionic_fraction(ION_C_p2) <= 1.);
+  __verif_check(iv.get_ionic_fraction(ION_N_n) + iv.get_ionic_fraction(ION_N_p1) + iv.get_ionic_fraction(ION_N_p2) <= 1.);
+  __verif_check(iv.get_ionic_fraction(ION_O_n) + iv.get_ionic_fraction(ION_O_p1) <= 1.);
+  __verif_check(iv.get_ionic_fraction(ION_Ne_n) + iv.get_ionic_fraction(ION_Ne_p1) <= 1.);
+  __verif_check(iv.get_ionic_fraction(ION_S_p1) + iv.get_ionic_fraction(ION_S_p2) + iv.get_ionic_fraction(ION_S_p3) <= 1.);
+  __verif_check(iv._heating[HEATINGTERM_H] == hfac * hH);       // the heating estimator is normalised exactly once
+}
 }
